@@ -439,12 +439,16 @@ type exec struct {
 	addr     []addressed // every adjustment/update addressed to a container, for C12
 	last     *reply
 	restarts int
+	addrMark  int               // index into addr where the last event started
+	cfgBefore int               // configuration index before the last event
+	preSnap   *snap             // snapshot before the last event
 }
 
 type addressed struct {
-	id   string
-	cpus string
-	mems string
+	id      string
+	cpus    string
+	mems    string
+	hadMems string // cpuset.mems the runtime had for the container when the message arrived
 	kind string // adjust, update, push
 	ev   string
 }
@@ -481,7 +485,11 @@ func (x *exec) applyUpdates(ev string, kind string, ups []*api.ContainerUpdate, 
 		seen[id] = true
 		c := x.w.byID[id]
 		r := u.GetLinux().GetResources()
-		x.addr = append(x.addr, addressed{id: id, cpus: r.GetCpu().GetCpus(), mems: r.GetCpu().GetMems(), kind: kind, ev: ev})
+		had := ""
+		if c != nil {
+			had = c.told.Mems
+		}
+		x.addr = append(x.addr, addressed{id: id, cpus: r.GetCpu().GetCpus(), mems: r.GetCpu().GetMems(), hadMems: had, kind: kind, ev: ev})
 		switch {
 		case c == nil:
 			x.log = append(x.log, fmt.Sprintf("update-unknown-container|%s|%s carries an update for %s which the runtime never had", id, ev, id))
@@ -501,6 +509,8 @@ func (x *exec) applyUpdates(ev string, kind string, ups []*api.ContainerUpdate, 
 func (x *exec) step(ev string) *reply {
 	rp := &reply{ev: ev}
 	x.last = rp
+	x.addrMark = len(x.addr)
+	x.cfgBefore = x.w.cfgIdx
 	f := strings.Split(ev, ":")
 	w, p := x.w, x.in.m.nri
 	ctx := context.Background()
@@ -564,7 +574,7 @@ func (x *exec) step(ev string) *reply {
 			r := rp.adjust.GetLinux().GetResources()
 			c.told.merge(r)
 			c.toldN++
-			x.addr = append(x.addr, addressed{id: c.id(), cpus: r.GetCpu().GetCpus(), mems: r.GetCpu().GetMems(), kind: "adjust", ev: ev})
+			x.addr = append(x.addr, addressed{id: c.id(), cpus: r.GetCpu().GetCpus(), mems: r.GetCpu().GetMems(), hadMems: c.init.Mems, kind: "adjust", ev: ev})
 		}
 		x.applyUpdates(ev, "update", rp.updates, c.id())
 	case "start":
